@@ -968,9 +968,21 @@ class HTTPResponse(BaseHTTPResponse):
 
         data = self._raw_read(amt)
 
-        flush_decoder = amt is None or (amt != 0 and not data)
+        # Flush the decoder once the body has ended: when nothing more could be
+        # read, or when this read consumed the last bytes of the body.
+        flush_decoder = amt is None or (
+            amt != 0 and (not data or is_fp_closed(self._fp))
+        )
 
         if not data and len(self._decoded_buffer) == 0:
+            if flush_decoder and decode_content and self._has_decoded_content:
+                # End of body: flush the decoder so that an incomplete
+                # stream is reported by every way of reading, not only
+                # by read() without an amount.
+                data = self._decode(data, decode_content, flush_decoder)
+                if amt is not None and len(data) > amt:
+                    self._decoded_buffer.put(data)
+                    data = self._decoded_buffer.get(amt)
             return data
 
         if amt is None:
@@ -998,6 +1010,8 @@ class HTTPResponse(BaseHTTPResponse):
                 # For example, the GZ file header takes 10 bytes, we don't want to read
                 # it one byte at a time
                 data = self._raw_read(amt)
+                # The body may end inside this loop: flush then as well.
+                flush_decoder = not data or is_fp_closed(self._fp)
                 decoded_data = self._decode(data, decode_content, flush_decoder)
                 self._decoded_buffer.put(decoded_data)
             data = self._decoded_buffer.get(amt)
@@ -1047,7 +1061,7 @@ class HTTPResponse(BaseHTTPResponse):
 
         self._init_decoder()
         while True:
-            flush_decoder = not data
+            flush_decoder = not data or is_fp_closed(self._fp)
             decoded_data = self._decode(data, decode_content, flush_decoder)
             self._decoded_buffer.put(decoded_data)
             if decoded_data or flush_decoder:
